@@ -20,6 +20,7 @@ NOTES = {
     "C18-m7": "rebased on fix 712502d: the mutant's hand-written context manager is made thread-aware like the fix and keeps its slip (bare yield without try/finally)",
     "C18-m8": "rebased on fix 712502d: the mutant re-implements get_code without any monkey patch, so the fix's helpers are simply dropped",
     "C19-m4": "rebased on fix 712502d (automatic 3-way merge)",
+    "C19-m5": "rebased on fix df088bc (the guarded _remove_typing moves into the mutant's new module with the other helpers)",
     "C11-m7": "written against b5f9e1b, rebased on fix 712502d (union of both insertions)",
     "C11-m8": "written against b5f9e1b, rebased on fix 712502d (union of both insertions)",
     "C08-m1": "rebased on fix 446eb9d (the mutant's nesting stack replaces the 'only leave flatten mode if we entered it' logic)",
